@@ -729,6 +729,23 @@ def g5_o5m(fb, R):
                 for r in local_roots(fn, a2):
                     if r[0] == 'field':
                         counter = r
+        # the counter itself, or a local working copy of it: initialised from the member (counter + k), updated, and
+        # stored back to the member (`next = counter + 1; if (next == N) next = 0; counter = next;`)
+        copies = set()
+        if counter is not None:
+            for n in fn.all_nodes():
+                if n.get('k') == 'assign' and n.get('op') == '=' and _is_this_field(fn, n['lhs'], counter[-1]):
+                    rv = fn.sn(n['rhs'])
+                    if rv is not None and rv.get('k') == 'var' and rv.get('vk') == 'local':
+                        for dn in definitions(fn, rv['d']):
+                            dnn = fn.nodes[dn]
+                            if dnn.get('k') == 'decl' and any(v['d'] == rv['d'] and isinstance(v.get('init'), int) and local_roots(fn, v['init']) == {counter}
+                                                              for v in dnn['vars']):
+                                copies.add(('var', rv['d']))
+
+        def _is_counter(x):
+            r = local_roots(fn, x)
+            return counter is not None and (r == {counter} or (len(r) == 1 and r <= copies))
         wraps = []
         for blk in fn.blocks.values():
             for (at, _truth, _idx) in edge_atoms(fn, blk):
@@ -736,9 +753,9 @@ def g5_o5m(fb, R):
                 if pc is None or counter is None:
                     continue
                 op, l, r = pc
-                if local_roots(fn, l) == {counter} and fn.const_value(r) is not None:
+                if _is_counter(l) and fn.const_value(r) is not None:
                     side, bound = l, fn.const_value(r)
-                elif local_roots(fn, r) == {counter} and fn.const_value(l) is not None:
+                elif _is_counter(r) and fn.const_value(l) is not None:
                     side, bound = r, fn.const_value(l)
                     op = {'<': '>', '<=': '>=', '>': '<', '>=': '<=', '==': '==', '!=': '!='}[op]
                 else:
